@@ -1,6 +1,7 @@
 package props
 
 import (
+	"os"
 	"context"
 	"fmt"
 	"strings"
@@ -28,6 +29,10 @@ type c05Params struct {
 	ReleaseMS int `json:"release_ms,omitempty"`
 	// BoundMS > 0 (ending limit): Do must return within this long after the N-th body started
 	BoundMS int `json:"bound_ms,omitempty"`
+	// TrigDurMS > 0: the trigger's own total duration as the case's plan gives it (config files: sum of the stages)
+	TrigDurMS int `json:"trig_dur_ms,omitempty"`
+	// Reps > 1: the run is repeated (the situation it aims at is a matter of a few milliseconds)
+	Reps int `json:"reps,omitempty"`
 }
 
 func c05FileYAML(c int, maxDur string, limit uint64, stages string) string {
@@ -237,6 +242,47 @@ func init() {
 				cse.TimeoutMS = 90000
 				cs = append(cs, cse)
 			}
+			// config files whose stages end long before max-duration: triggering stops at the stages' total, and the
+			// wait for iterations that never finish is the completion timeout
+			for i, blocking := range []string{"none", "forever", "none"} {
+				if tier == "quick" && i == 2 {
+					continue
+				}
+				c := pick(r, 1, 2, 4)
+				st := "- duration: 200ms\n  mode: constant\n  rate: 1/20ms\n- duration: 200ms\n  mode: constant\n  rate: 1/20ms\n"
+				if i == 2 {
+					st = "- duration: 200ms\n  mode: users\n- duration: 200ms\n  mode: constant\n  rate: 1/20ms\n"
+				}
+				p := c05Params{Ending: "trigger-duration", Blocking: blocking, TrigDurMS: 400}
+				p.Spec = engine.Spec{Mode: "file", YAML: c05FileYAML(c, "20s", 0, st)}
+				p.Spec.MaxDurationMS, p.Spec.IgnoreDropped, p.Spec.CompletionMS = 20000, true, 400
+				p.Desc = fmt.Sprintf("mode=file(2 stages of 200ms, max-duration 20s) c=%d ending=trigger-duration blocking=%s completion=400ms", c, blocking)
+				cse := core.MkCase("C05", "run", 7300+i, seed, p)
+				cse.Race = i%2 == 0
+				cse.TimeoutMS = 40000
+				cs = append(cs, cse)
+			}
+			// max-duration ends in the pause between two config-file stages, a users stage comes next
+			nps := 2
+			if tier == "thorough" {
+				nps = 10
+			}
+			for i := 0; i < nps; i++ {
+				c := pick(r, 20, 50)
+				p := c05Params{Ending: "duration", Blocking: "none", Reps: 10}
+				// (a stage triggers for its duration less 20 ms and then pauses for 20 ms: 180-200 ms here; the
+				// deadline that stops triggering is max-duration less 10 ms)
+				st := "- duration: 200ms\n  mode: constant\n  rate: 1/20ms\n  parameters:\n    VERIF_C05_STAGE: first\n- duration: 4s\n  mode: users\n  parameters:\n    VERIF_C05_STAGE: second\n"
+				d := 194 + r.IntN(12)
+				p.Spec = engine.Spec{Mode: "file", YAML: c05FileYAML(c, fmt.Sprintf("%dms", d), 0, st)}
+				p.Spec.MaxDurationMS, p.Spec.IgnoreDropped, p.Spec.CompletionMS = d, true, 300
+				p.Desc = fmt.Sprintf("mode=file(constant 200ms, users 4s) c=%d ending=duration(%dms: in the pause between the stages) blocking=none completion=300ms", c, d)
+				cse := core.MkCase("C05", "run", 7400+i, seed, p)
+				cse.Race = i%2 == 0
+				cse.Procs = pick(r, 2, 16)
+				cse.TimeoutMS = 90000
+				cs = append(cs, cse)
+			}
 			// cancellation lands while the users are being started
 			ncs := 6
 			if tier == "thorough" {
@@ -316,6 +362,12 @@ func (e *c05Env) open() { e.gateOnce.Do(func() { close(e.gate) }) }
 func c05Run(c *core.Case, o *core.Outcome) {
 	var p c05Params
 	c.Params(&p)
+	for rep := 0; rep < max(p.Reps, 1) && o.Verdict == core.Held; rep++ {
+		c05RunOnce(c, o, p)
+	}
+}
+
+func c05RunOnce(c *core.Case, o *core.Outcome, p c05Params) {
 	opt := goleak.IgnoreCurrent()
 	e := &c05Env{l: engine.NewLog(), gate: make(chan struct{})}
 	e.ctx, e.cancel = context.WithCancel(context.Background())
@@ -346,7 +398,7 @@ func c05Run(c *core.Case, o *core.Outcome) {
 			if p.BoundMS > 0 && uint64(n) == p.Spec.MaxIterations {
 				nthStart.Store(int64(e.l.Now()))
 			}
-			seq := e.l.Add("body.start", "", t.Iteration, 0, "")
+			seq := e.l.Add("body.start", "", t.Iteration, 0, os.Getenv("VERIF_C05_STAGE"))
 			defer func() {
 				e.inflight.Add(-1)
 				e.l.Add("body.end", "", t.Iteration, seq, "")
@@ -360,7 +412,7 @@ func c05Run(c *core.Case, o *core.Outcome) {
 			}
 		}
 	}
-	var deadlineRem time.Duration
+	var deadlineRem, deadlineAt time.Duration
 	var deadlineOK, triggerEntered bool
 	var triggerReturnedBeforeCtxDone atomic.Bool
 	var trigRet atomic.Int64 // log time at which the trigger returned: the completion wait starts after it
@@ -379,6 +431,7 @@ func c05Run(c *core.Case, o *core.Outcome) {
 			if dl, ok := ctx.Deadline(); ok {
 				deadlineOK = true
 				deadlineRem = time.Until(dl)
+				deadlineAt = e.l.Now() + deadlineRem
 			}
 		},
 		OnTriggerReturn: func() {
@@ -479,6 +532,10 @@ func c05Run(c *core.Case, o *core.Outcome) {
 		if r.Trigger.Duration > 0 && r.Trigger.Duration < want {
 			want = r.Trigger.Duration
 		}
+		if td := time.Duration(p.TrigDurMS) * time.Millisecond; td > 0 && td < want {
+			// the plan's own arithmetic, not what the trigger reports about itself
+			want = td
+		}
 		want -= 10 * time.Millisecond
 		if !deadlineOK {
 			viol("no-deadline", "the trigger's context carries no deadline: nothing stops triggering at max-duration")
@@ -560,6 +617,25 @@ func c05Run(c *core.Case, o *core.Outcome) {
 	if p.Ending == "limit" && p.Blocking == "none" && uint64(e.started.Load()) != p.Spec.MaxIterations {
 		viol("limit-count", "limit %d but %d iterations started", p.Spec.MaxIterations, e.started.Load())
 		return
+	}
+	// a config-file stage that begins after the deadline has passed (it fell into the pause before it) is never started
+	if strings.Contains(p.Desc, "in the pause between the stages") {
+		for _, ev := range e.l.Events() {
+			if ev.Kind == "body.start" && ev.S == "second" {
+				viol("stage-started-after-deadline", "triggering stopped %v after it began, in the pause after the first stage; iteration %s nevertheless ran with the second stage's parameters (%v after the run began): a stage was started after the run had stopped requesting iterations", deadlineRem, ev.ID, ev.T)
+				return
+			}
+		}
+		o.AddObs("stage_pause_runs", 1)
+	}
+	// triggering stopped at the deadline f1 armed: no iteration starts a whole second later
+	if deadlineOK {
+		for _, ev := range e.l.Events() {
+			if ev.Kind == "body.start" && ev.T > deadlineAt+time.Second {
+				viol("started-after-deadline", "iteration %s started %v after the deadline that stops triggering (armed %v after triggering began)", ev.ID, ev.T-deadlineAt, deadlineRem)
+				return
+			}
+		}
 	}
 	// nothing afterwards
 	e.open()
